@@ -78,30 +78,38 @@
     - [lcmd D]: an entry of the command log ([LInit loc], [LExt pcr alg m], [LLog]);
       [filter_log alg 0 cmds]: filteredMeasurements, the measurements with their
       positions in the log; the [log] of the theorems above is [map snd] of it.
-    - [tool_verdict alg cmds target loc dis sw]: what pcr0tool's
+    - [tool_verdict alg cmds target loc reg dis sw]: what pcr0tool's
       printReproducePCR0Result (cmd/exp/pcr0tool/commands/sum/command.go, the only
-      consumer of a result in the repository) prints when it is handed the command
-      log, the requested value and a result with locality [loc], disabled
-      measurements at the log positions [dis] and swaps [sw]: [TVOk] = "Resulting
-      PCR0: ...", [TVMismatch] = "internal error: replayed PCR0 does not match the
-      expected one; the information above could not be trusted", [TVSilent] =
-      neither (the replay failed, the error is only logged), [TVPanic] =
-      ApplyOrderSwaps indexes out of range.  The corrected register is printed and
-      never applied.
+      consumer of a result in the repository; as repaired by /repo 00d338a and
+      84ad407) prints when it is handed the command log, the requested value and
+      a result with locality [loc], register [reg], disabled measurements at the
+      log positions [dis] and swaps [sw]: [TVOk] = "Resulting PCR0: ...",
+      [TVMismatch] = "internal error: replayed PCR0 does not match the expected
+      one; the information above could not be trusted", [TVSilent] = neither (an
+      error is logged and the function returns), [TVPanic] = ApplyOrderSwaps
+      indexes out of range.  The model follows the code: the kept entries (the
+      disabled ones still among them, the log's TPMInit element 0 if it is the
+      first command and has the reported locality), the first enabled
+      measurement re-hashed with the reported register, the swaps applied behind
+      the TPMInit entry, the disabled entries dropped, the replay.
     - [cmd_positions f dis_f]: log positions of the disabled measurements of a
-      result ([r_disabled] counts in the filtered list).  [reg_neutral log r]: the
-      reported register leaves the digest sequence as recorded (no register, or the
-      recorded PCR0_DATA digest already is the hash with it: [reg_neutral_same]).
-      [no_init_kept loc cmds]: the log does not start with TPMInit([loc]).
+      result ([r_disabled] counts in the filtered list).
+    - [data_first log r]: if a register is reported, the first measurement that is
+      not disabled is a PCR0_DATA measurement -- what "re-hash the first enabled
+      measurement" (the brute-forcer and the tool) and [replay_result] (re-hash it
+      if it is PCR0_DATA) both presuppose; true of every reported result
+      ([C03_reported_results_wellformed]); needed ([C03_ex_tool_agreement]).
 
-    Open findings (KNOWN_FINDINGS.json): C03-drop-all-not-searched,
-    C03-tool-replay-ignores-register, C03-tool-replay-swap-indices ([_refuted]
+    Open finding (KNOWN_FINDINGS.json): C03-drop-all-not-searched ([_refuted]
     below).  Repaired in /repo (section "fixed" there): C03-D21-linear-blocks
     (92fa0d4: blocks clamped to [0, limit); [C03_linear_blocks_exact],
     [C03_none], [C03_parallelism_*] lost the hypothesis GOMAXPROCS - 1 <= limit)
     and C03-resultch-deadlock (1dc507b: resultCh has one slot per goroutine;
     [C03_returns], and [FHang] left the conclusions of [C03_complete_partial] and
-    [C03_parallelism_partial]). *)
+    [C03_parallelism_partial]), C03-tool-replay-swap-indices (00d338a) and
+    C03-tool-replay-ignores-register (84ad407): the four closed witnesses of the
+    former [C03_tool_replay_refuted] are instances of [C03_tool_replay_agrees]
+    now ([C03_ex_tool_repaired]). *)
 From CSS Require Import Lib.Base Lib.Cases Model.Comb Proofs.Comb
      Model.PCR0Search Model.PCR0Tool Model.PCR0SearchCases Proofs.PCR0Search
      Proofs.PCR0SearchUnique Proofs.PCR0Tool.
@@ -522,79 +530,65 @@ Theorem C03_filter_exact : forall D alg (cmds : list (lcmd D)),
 Proof. exact filter_log_exact. Qed.
 Print Assumptions C03_filter_exact.
 
-(** a result without swaps whose register leaves the PCR0_DATA digest as recorded:
-    the tool replays exactly what [replay_result] replays -- any log (TPMInit
-    anywhere, event-log entries, other PCRs and banks), any disabled measurements;
-    it prints one of its two verdicts, never panics *)
-Theorem C03_tool_agrees_without_swaps : forall D (deqb : D -> D -> bool) (pcr_init : Z -> D)
+(** the repository's own "apply the result to the command log and replay it" is
+    the independent [replay_result]: ANY log (TPMInit first with either locality,
+    elsewhere, twice, absent; event-log entries; other PCRs and banks), any
+    disabled measurements, any swaps, a corrected register or none.  Hypotheses:
+    the result refers to measurements of the log (indices in range: otherwise
+    ApplyOrderSwaps panics resp. a pointer is foreign) and [data_first].  The tool
+    prints one of its two verdicts; it never panics and never stays silent. *)
+Theorem C03_tool_replay_agrees : forall D (deqb : D -> D -> bool) (pcr_init : Z -> D)
     (extend : D -> D -> D) (pcr0data : Z -> Z -> D) alg (cmds : list (lcmd D)) target r,
   let f := PCR0Tool.filter_log D alg 0 cmds in
   Forall (fun i => (i < length f)%nat) (r_disabled r) ->
-  r_swaps r = [] -> reg_neutral D pcr0data (map snd f) r ->
-  tool_verdict D deqb pcr_init extend alg cmds target (r_loc r) (cmd_positions f (r_disabled r)) (r_swaps r)
-  = if deqb (replay_result D pcr_init extend pcr0data (map snd f) r) target then TVOk else TVMismatch.
-Proof. exact tool_agrees_no_swaps. Qed.
-Print Assumptions C03_tool_agrees_without_swaps.
-
-(** a result with swaps: the same when nothing is disabled and the log does not
-    start with TPMInit(reported locality) *)
-Theorem C03_tool_agrees_swaps_only : forall D (deqb : D -> D -> bool) (pcr_init : Z -> D)
-    (extend : D -> D -> D) (pcr0data : Z -> Z -> D) alg (cmds : list (lcmd D)) target r,
-  let f := PCR0Tool.filter_log D alg 0 cmds in
-  r_disabled r = [] -> no_init_kept D (r_loc r) cmds ->
   Forall (fun i => (i < length f)%nat) (swap_idx (r_swaps r)) ->
-  reg_neutral D pcr0data (map snd f) r ->
-  tool_verdict D deqb pcr_init extend alg cmds target (r_loc r) (cmd_positions f (r_disabled r)) (r_swaps r)
+  data_first D (map snd f) r ->
+  tool_verdict D deqb pcr_init extend pcr0data alg cmds target
+               (r_loc r) (r_reg r) (cmd_positions f (r_disabled r)) (r_swaps r)
   = if deqb (replay_result D pcr_init extend pcr0data (map snd f) r) target then TVOk else TVMismatch.
-Proof. exact tool_agrees_swaps_only. Qed.
-Print Assumptions C03_tool_agrees_swaps_only.
+Proof. exact tool_replay_agrees. Qed.
+Print Assumptions C03_tool_replay_agrees.
 
-(** search and consumer together (collision-free hash): every reported result
-    without swaps and with a neutral register is confirmed by the tool *)
-Theorem C03_tool_accepts_plain_results : forall D (deqb : D -> D -> bool),
+(** every reported result meets these hypotheses, whatever the hash, the
+    settings, GOMAXPROCS and the schedule *)
+Theorem C03_reported_results_wellformed : forall D (deqb : D -> D -> bool),
+  (forall a b, deqb a b = true <-> a = b) ->
+  forall (pcr_init : Z -> D) (extend : D -> D -> D) (pcr0data : Z -> Z -> D) st
+         (log : list (meas D)) (target : D) cf r,
+  In (FSome r) (outcomes D deqb pcr_init extend pcr0data st log target cf) ->
+  Forall (fun i => (i < length log)%nat) (r_disabled r) /\
+  Forall (fun i => (i < length log)%nat) (swap_idx (r_swaps r)) /\
+  data_first D log r.
+Proof. exact reported_wf. Qed.
+Print Assumptions C03_reported_results_wellformed.
+
+(** hence: for EVERY reported result the tool's replay equals the independent
+    replay -- no hypothesis on the hash ... *)
+Theorem C03_tool_replay_reported : forall D (deqb : D -> D -> bool),
+  (forall a b, deqb a b = true <-> a = b) ->
+  forall (pcr_init : Z -> D) (extend : D -> D -> D) (pcr0data : Z -> Z -> D) st alg
+         (cmds : list (lcmd D)) (target : D) cf r,
+  let f := PCR0Tool.filter_log D alg 0 cmds in
+  In (FSome r) (outcomes D deqb pcr_init extend pcr0data st (map snd f) target cf) ->
+  tool_verdict D deqb pcr_init extend pcr0data alg cmds target
+               (r_loc r) (r_reg r) (cmd_positions f (r_disabled r)) (r_swaps r)
+  = if deqb (replay_result D pcr_init extend pcr0data (map snd f) r) target then TVOk else TVMismatch.
+Proof. exact tool_replay_reported. Qed.
+Print Assumptions C03_tool_replay_reported.
+
+(** ... and with a collision-free hash the tool confirms every reported result *)
+Theorem C03_tool_confirms_reported : forall D (deqb : D -> D -> bool),
   (forall a b, deqb a b = true <-> a = b) ->
   forall (pcr_init : Z -> D) (extend : D -> D -> D) (pcr0data : Z -> Z -> D) st alg
          (cmds : list (lcmd D)) (target : D) cf r,
   let f := PCR0Tool.filter_log D alg 0 cmds in
   extend_injective extend -> pcr0data_injective pcr0data -> lin_limit st <= 2 ^ 64 ->
-  1 <= cf -> no_overflow D st (map snd f) ->
   In (FSome r) (outcomes D deqb pcr_init extend pcr0data st (map snd f) target cf) ->
-  r_swaps r = [] -> reg_neutral D pcr0data (map snd f) r ->
-  tool_verdict D deqb pcr_init extend alg cmds target (r_loc r) (cmd_positions f (r_disabled r)) (r_swaps r)
+  tool_verdict D deqb pcr_init extend pcr0data alg cmds target
+               (r_loc r) (r_reg r) (cmd_positions f (r_disabled r)) (r_swaps r)
   = TVOk.
-Proof. exact tool_accepts_plain. Qed.
-Print Assumptions C03_tool_accepts_plain_results.
-
-(** findings C03-tool-replay-ignores-register and C03-tool-replay-swap-indices:
-    results that ARE reported (the only outcome) and DO replay to the requested value,
-    and what the tool makes of them --
-    1. ACM_POLICY_STATUS off by one, default settings: "internal error" (the corrected
-       register is printed, the recorded PCR0_DATA digest is replayed);
-    2. log = TPMInit(3), PCR0_DATA, two measurements that have to be swapped: found at
-       locality 3 the tool keeps the TPMInit entry as element 0 of the list it swaps in
-       ("internal error"); found at locality 0 it does not and agrees;
-    3. a dropped measurement and a swap behind it: the indices count the dropped entry,
-       the tool's list does not hold it any more: index out of range;
-    4. a swap with PCR0_DATA itself in a log starting with TPMInit(3): the tool moves
-       the TPMInit entry behind an extend, the replay fails, no verdict is printed *)
-Theorem C03_tool_replay_refuted :
-  (forall cf, In cf [1; 4] ->
-     outcomes term term_eqb Init Ext DataH st_w1 (t_log 4 cmds_w1) tgt_w1 cf = [FSome r_w1]) /\
-  t_replay_result (t_log 4 cmds_w1) r_w1 = tgt_w1 /\
-  t_tool 4 cmds_w1 tgt_w1 3 [] [] = TVMismatch /\
-  (forall loc, In loc [0; 3] ->
-     outcomes term term_eqb Init Ext DataH st_w2 (t_log 4 cmds_w2) (tgt_w2 loc) 1 = [FSome (r_w2 loc)] /\
-     t_replay_result (t_log 4 cmds_w2) (r_w2 loc) = tgt_w2 loc) /\
-  t_tool 4 cmds_w2 (tgt_w2 3) 3 [] [(1, 2)%nat] = TVMismatch /\
-  t_tool 4 cmds_w2 (tgt_w2 0) 0 [] [(1, 2)%nat] = TVOk /\
-  outcomes term term_eqb Init Ext DataH st_w3 (t_log 4 cmds_w3) tgt_w3 1 = [FSome r_w3] /\
-  t_replay_result (t_log 4 cmds_w3) r_w3 = tgt_w3 /\
-  t_tool 4 cmds_w3 tgt_w3 0 [2%nat] [(2, 3)%nat] = TVPanic /\
-  outcomes term term_eqb Init Ext DataH st_w2 (t_log 4 cmds_w4) tgt_w4 1 = [FSome r_w4] /\
-  t_replay_result (t_log 4 cmds_w4) r_w4 = tgt_w4 /\
-  t_tool 4 cmds_w4 tgt_w4 3 [] [(0, 1)%nat] = TVSilent.
-Proof. exact tool_replay_witnesses. Qed.
-Print Assumptions C03_tool_replay_refuted.
+Proof. exact tool_confirms_reported. Qed.
+Print Assumptions C03_tool_confirms_reported.
 
 
 (** * Hypotheses are satisfiable *)
@@ -610,28 +604,43 @@ Proof. exact no_overflow_small. Qed.
 Example C03_ex_collision_free : extend_injective Ext /\ pcr0data_injective DataH.
 Proof. exact (conj term_extend_injective term_pcr0data_injective). Qed.
 
-(** [reg_neutral]: no register, or the recorded digest is the hash with the reported one *)
-Example C03_ex_reg_neutral : forall D (pcr0data : Z -> Z -> D) (log : list (meas D)) r v,
-  r_reg r = Some v ->
-  (forall p m tail reg0,
-     first_true (map (fun i => negb (mem_nat i (r_disabled r))) (seq 0 (length log))) 0 = Some p ->
-     nth_error log p = Some m -> m_data m = Some (tail, reg0) -> pcr0data tail v = m_dig m) ->
-  reg_neutral D pcr0data log r.
-Proof. exact reg_neutral_same. Qed.
+(** the witnesses of the two repaired tool findings: the results are the only
+    outcome, replay to the requested value, and the repaired tool confirms each
+    (it used to answer "internal error", "internal error" at locality 3, an index
+    panic, nothing) *)
+Example C03_ex_tool_repaired :
+  (forall cf, In cf [1; 4] ->
+     outcomes term term_eqb Init Ext DataH st_w1 (t_log 4 cmds_w1) tgt_w1 cf = [FSome r_w1]) /\
+  t_replay_result (t_log 4 cmds_w1) r_w1 = tgt_w1 /\
+  t_tool 4 cmds_w1 tgt_w1 3 (Some (R0 - 1)) [] [] = TVOk /\
+  (forall loc, In loc [0; 3] ->
+     outcomes term term_eqb Init Ext DataH st_w2 (t_log 4 cmds_w2) (tgt_w2 loc) 1 = [FSome (r_w2 loc)] /\
+     t_replay_result (t_log 4 cmds_w2) (r_w2 loc) = tgt_w2 loc /\
+     t_tool 4 cmds_w2 (tgt_w2 loc) loc (Some R0) [] [(1, 2)%nat] = TVOk) /\
+  outcomes term term_eqb Init Ext DataH st_w3 (t_log 4 cmds_w3) tgt_w3 1 = [FSome r_w3] /\
+  t_replay_result (t_log 4 cmds_w3) r_w3 = tgt_w3 /\
+  t_tool 4 cmds_w3 tgt_w3 0 (Some R0) [2%nat] [(2, 3)%nat] = TVOk /\
+  outcomes term term_eqb Init Ext DataH st_w2 (t_log 4 cmds_w4) tgt_w4 1 = [FSome r_w4] /\
+  t_replay_result (t_log 4 cmds_w4) r_w4 = tgt_w4 /\
+  t_tool 4 cmds_w4 tgt_w4 3 (Some R0) [] [(0, 1)%nat] = TVOk.
+Proof. exact tool_repaired_witnesses. Qed.
 
-(** the premises of the two agreement theorems on real-shaped logs: TPMInit(3),
-    PCR0_DATA, three measurements, one dropped, found at locality 3 (the tool says
-    "Resulting PCR0"); and a swap found at locality 0 *)
+(** the hypotheses of [C03_tool_replay_agrees] on a result with a dropped
+    measurement, a swap across it, a corrected register, in a log with its own
+    TPMInit; and [data_first] is needed: a register "reported" for a log whose
+    first enabled measurement is not PCR0_DATA (the search never does) cannot be
+    applied by the tool (no verdict) and is ignored by [replay_result] *)
 Example C03_ex_tool_agreement :
   (let f := filter_log 4 0 cmds_w3 in
-   Forall (fun i => (i < length f)%nat) (r_disabled r_ex1) /\ r_swaps r_ex1 = [] /\
-   reg_neutral term DataH (map snd f) r_ex1 /\ cmd_positions f (r_disabled r_ex1) = [3%nat] /\
+   Forall (fun i => (i < length f)%nat) (r_disabled r_ex1) /\
+   Forall (fun i => (i < length f)%nat) (swap_idx (r_swaps r_ex1)) /\
+   data_first term (map snd f) r_ex1 /\ cmd_positions f (r_disabled r_ex1) = [3%nat] /\
    t_replay_result (map snd f) r_ex1 = tgt_ex1 /\
-   t_tool 4 cmds_w3 tgt_ex1 3 [3%nat] [] = TVOk) /\
-  (let f := filter_log 4 0 cmds_w2 in
-   r_disabled (r_w2 0) = [] /\ no_init_kept term (r_loc (r_w2 0)) cmds_w2 /\
-   Forall (fun i => (i < length f)%nat) (swap_idx (r_swaps (r_w2 0))) /\
-   reg_neutral term DataH (map snd f) (r_w2 0)).
+   t_tool 4 cmds_w3 tgt_ex1 3 (Some (R0 - 1)) [3%nat] [(1, 3)%nat] = TVOk) /\
+  (let f := filter_log 4 0 cmds_w1 in
+   ~ data_first term (map snd f) r_nd /\
+   t_replay_result (map snd f) r_nd = tgt_nd /\
+   t_tool 4 cmds_w1 tgt_nd 0 (Some R0) (cmd_positions f (r_disabled r_nd)) [] = TVSilent).
 Proof. exact tool_agreement_examples. Qed.
 
 (** one register candidate: [acm_unique] for every hash and every log *)
